@@ -192,9 +192,44 @@ func namedStruct(idx int64) any {
 		arr := &[2]int{7, 8}
 		sl := arr[:]
 		return map[string]any{"a_profile": p, "b_name": &p.Name, "c_first": &arr[0], "d_all": &sl}
+	case 7:
+		// an embedded struct of an exported type: a field named after the type
+		return embUser{EmbBase: EmbBase{ID: 1, Tag: "t"}, Name: "n"}
+	case 8:
+		// an embedded struct of an unexported type (not reachable), by value
+		return embW{embInner: embInner{Secret: "s", Pub: 2}, Name: "w"}
+	case 9:
+		// an embedded nil pointer to an unexported type, and one to an exported type
+		return embW2{Name: "w2"}
+	case 10:
+		// embedded pointers that point somewhere
+		return &embW2{embInner: &embInner{Secret: "s", Pub: 3}, EmbBase: &EmbBase{ID: 4, Tag: "u"}, Name: "w3"}
 	}
 	type Rec struct{}
 	return Rec{}
+}
+
+// types for embedded fields (package level: embedding needs named types)
+type EmbBase struct {
+	ID  int
+	Tag string
+}
+type embInner struct {
+	Secret string
+	Pub    int
+}
+type embUser struct {
+	EmbBase
+	Name string
+}
+type embW struct {
+	embInner
+	Name string
+}
+type embW2 struct {
+	*embInner
+	*EmbBase
+	Name string
 }
 
 func gvNamed(idx int64) *GV { return &GV{K: "NT", I: idx} }
